@@ -85,6 +85,31 @@ CastExp(v0, from, to) ==
     ELSE IF IsOpt(to) THEN CastVal(v, Inner(to))
     ELSE CastVal(v, to)
 
+(* ---- String / &str as a SOURCE -------------------------------------------------------- *)
+
+\* A string source carries the TEXT of a value class: "None" (the string null), the decimal text of an
+\* integer, "1.5", "inf" / "-inf", and MID32 - a decimal text that lies just above the midpoint of two
+\* neighbouring f32 values, closer to it than f64 can tell ("1.0000000596046448": reading it as f64
+\* first lands ON the midpoint, and narrowing then rounds to even - the other neighbour).  Casting
+\* text to a number is the language's own parse of that text INTO THE TARGET TYPE (one rounding);
+\* text that is not a literal of the target type has no image (a clean panic).
+MID32 == 777006
+StrVals == Ints \cup {NULL, HALF, PINF, NINF, MID32}
+StrCastExp(v, to) ==
+    IF v = NULL THEN (IF CanNull(to) THEN <<"null">> ELSE <<"any">>)
+    ELSE LET tb == Inner(to) IN
+         CASE tb \in Floats -> IF v \in Ints THEN <<"val", v, 1>> ELSE IF v = HALF THEN <<"val", 3, 2>> ELSE <<"lang">>
+           [] tb \in SInts \cup UInts -> IF v \in Ints /\ InRange(v, tb) THEN <<"val", v, 1>> ELSE <<"panic">>
+           [] OTHER -> <<"any">>
+\* C15: the text of an integer casts like the integer itself wherever it fits the target, the string
+\* null follows the null rule, and Option targets compose
+StrCoherent ==
+    \A to \in Types, v \in StrVals :
+        /\ (CanNull(to) /\ Inner(to) # "bool") => (v = NULL <=> StrCastExp(v, to) = <<"null">>)
+        /\ (v \in Ints /\ Inner(to) \in SInts \cup UInts \cup Floats /\ (Inner(to) \in Floats \/ InRange(v, Inner(to))))
+              => StrCastExp(v, to) = CastExp(v, "i64", to)
+        /\ (v # NULL /\ to \in Base) => StrCastExp(v, Opt(to)) = StrCastExp(v, to)
+
 \* C15: a cast never turns a null into a non-null or vice versa when the target has a null
 NullPreserved ==
     \A from \in Types, to \in Types, v \in Universe :
@@ -153,7 +178,8 @@ VARIABLE c
 vars == <<c>>
 Init == c \in {[from |-> f, to |-> t, v |-> v] : f \in Types, t \in Types, v \in Universe}
              \cup {[from |-> f, to |-> t, v |-> v] : f \in Types, t \in {"string"} \cup TimeTypes, v \in {NULL, 1}}
-             \cup {[from |-> f, to |-> t, v |-> v] : f \in {"string"} \cup TimeTypes, t \in Types, v \in {NULL, 1}}
+             \cup {[from |-> f, to |-> t, v |-> v] : f \in TimeTypes, t \in Types, v \in {NULL, 1}}
+             \cup {[from |-> "string", to |-> t, v |-> v] : t \in Types, v \in StrVals}
 Next == UNCHANGED vars
 Spec == Init /\ [][Next]_vars
 =============================================================================
